@@ -6,6 +6,7 @@ import (
 	"context"
 	"fmt"
 	"net"
+	"os"
 	"sort"
 	"strings"
 	"time"
@@ -195,8 +196,14 @@ func scAcct(e *kenv, x *sched.Exec) func() []viol {
 			panic(err)
 		}
 	}
-	x.Thread("stopA", func() { err := am.StopSession("victim", bngradius.TerminateCauseUserRequest); x.Obs("A err=%v", err != nil) })
-	x.Thread("stopB", func() { err := am.StopSession("victim", bngradius.TerminateCauseNASRequest); x.Obs("B err=%v", err != nil) })
+	x.Thread("stopA", func() {
+		err := am.StopSession("victim", bngradius.TerminateCauseUserRequest)
+		x.Obs("A err=%v", err != nil)
+	})
+	x.Thread("stopB", func() {
+		err := am.StopSession("victim", bngradius.TerminateCauseNASRequest)
+		x.Obs("B err=%v", err != nil)
+	})
 	return func() []viol {
 		defer rs.close()
 		defer vfs.Unmount(mount)
@@ -325,15 +332,34 @@ func scPPPoE(alloc bool) func(e *kenv, x *sched.Exec) func() []viol {
 
 // ---------------------------------------------------------------- driver
 
-type schedData struct{ check func() []viol }
+type schedData struct {
+	viols []viol
+	ran   bool
+}
 
+// The end-of-schedule oracle (which delivers further packets for its probes, and
+// so spawns goroutines in the code under test) runs INSIDE the controlled
+// execution, as an idle thread that is scheduled once nothing else can run, with
+// scheduling switched off: deterministic, no stray goroutine survives into the
+// next execution.
 func (sc schedScen) scenario(e *kenv) *sched.Scenario {
 	return &sched.Scenario{
-		Name:  sc.name,
-		Setup: func(x *sched.Exec) { x.Data = &schedData{check: sc.build(e, x)} },
+		Name: sc.name,
+		Setup: func(x *sched.Exec) {
+			d := &schedData{}
+			x.Data = d
+			var check func() []viol
+			// the sequential prefix (establishment) spawns goroutines (accounting records, LCP negotiation): scheduling off
+			x.Sequential(func() { check = sc.build(e, x) })
+			x.IdleThread("oracle", func() { x.Sequential(func() { d.viols = check(); d.ran = true }) })
+		},
 		Check: func(x *sched.Exec) []sched.Viol {
+			d := x.Data.(*schedData)
+			if !d.ran {
+				return []sched.Viol{{Kind: "harness-oracle-not-run", Site: "sched", Detail: "the oracle thread did not run"}}
+			}
 			var out []sched.Viol
-			for _, v := range x.Data.(*schedData).check() {
+			for _, v := range d.viols {
 				out = append(out, sched.Viol{Kind: v.Kind, Site: v.Site, Detail: v.Detail})
 			}
 			return out
@@ -345,11 +371,18 @@ func runSched(run *report.Run, e *kenv) {
 	bound := 2
 	budget := 25 * time.Second
 	if run.Thorough() {
-		budget = 4 * time.Minute
+		bound, budget = 3, 100*time.Second
 	}
 	for _, sc := range schedScenarios(run.Thorough()) {
 		name := "sched:" + sc.name
 		if !run.WantPart(name) {
+			continue
+		}
+		if os.Getenv("C16_DEBUG") != "" {
+			for i := 0; i < 4; i++ {
+				x, vs := runAndCheck(sc, e, nil)
+				fmt.Printf("DEBUG %s run %d: log=%v viols=%d\n  schedule=%v\n", name, i, x.Log, len(vs), x.Schedule())
+			}
 			continue
 		}
 		ex := &sched.Explorer{Bound: bound, Budget: budget}
@@ -360,7 +393,7 @@ func runSched(run *report.Run, e *kenv) {
 			x1, _ := runAndCheck(sc, e, f.Choices)
 			x2, _ := runAndCheck(sc, e, f.Choices)
 			if strings.Join(x1.Log, "|") != strings.Join(x2.Log, "|") || strings.Join(x1.Log, "|") != strings.Join(f.Log, "|") {
-				run.HarnessError("non-deterministic replay of schedule in " + name)
+				run.HarnessError("non-deterministic replay of schedule in " + name + ": explorer [" + strings.Join(f.Log, "|") + "] replay1 [" + strings.Join(x1.Log, "|") + "] replay2 [" + strings.Join(x2.Log, "|") + "] violations " + fmt.Sprint(f.Viols[0]) + fmt.Sprintf("\n choices %v\n explorer schedule %v\n replay schedule %v", f.Choices, f.Schedule, x1.Schedule()))
 				continue
 			}
 			for _, v := range f.Viols {
@@ -395,7 +428,11 @@ func runAndCheck(sc schedScen, e *kenv, choices []int) (*sched.Exec, []viol) {
 	case x.Livelock:
 		return x, []viol{{Kind: "livelock", Site: "sched", Detail: "step horizon exceeded"}}
 	}
-	return x, x.Data.(*schedData).check()
+	d := x.Data.(*schedData)
+	if !d.ran {
+		return x, []viol{{Kind: "harness-oracle-not-run", Site: "sched", Detail: "the oracle thread did not run"}}
+	}
+	return x, d.viols
 }
 
 func replaySched(e *kenv, v report.Violation) int {
